@@ -465,7 +465,8 @@ package sftp
 // (page-size invariant of the allocator: every page handed out was made with len == cap == maxMsgLength; see C18)
 
 //@ func recvPacket
-//@   property C08, C07
+//@   assert before call (*allocator).GetPage#1: arg1 == orderID
+//@   property C08, C07, C18, C15
 //@   results typ, payload, err
 //@   alloc-bound maxMsgLength + 64
 //@   requires r != nil
@@ -689,7 +690,8 @@ package sftp
 //@   ensures err == nil ==> result.Code == sshFxOk
 
 //@ func handlePacket
-//@   property C07, C02, C09
+//@   assert before call (*sshFxpReadPacket).getDataSlice#1: arg1 == s.pktMgr.alloc && arg2 == old(p.orderid) && arg3 == s.maxTxPacket
+//@   property C07, C02, C09, C18, C15
 //@   requires serverOK(s) && p.requestPacket != nil && reqType(p.requestPacket) && extOK(p.requestPacket)
 //@   assert before call (*packetManager).readyPacket#1: arg1.orderid == p.orderid
 //@   assert before call (*packetManager).readyPacket#1: arg1.responsePacket != nil
@@ -909,7 +911,10 @@ package sftp
 //@ ghost var sweeping bool
 
 //@ func (*Server).Serve
-//@   property C07, C02, C11, C14
+//@   loop 1 ghost rxOrder
+//@   update before call (*conn).recvPacket#1: ghost.rxOrder = arg1
+//@   assert before send pktChan#1: arg1.orderid == ghost.rxOrder
+//@   property C07, C02, C11, C14, C18, C15
 //@   update before call (*packetManager).workerChan#1: ghost.workersJoined = false
 //@   update before call (*packetManager).workerChan#1: ghost.sweeping = false
 //@   update after call (*sync.WaitGroup).Wait#1: ghost.workersJoined = true
@@ -932,7 +937,11 @@ package sftp
 //@   assert before send pktChan#1: pkt != nil && (err == nil || isErr(err, errUnknownExtendedPacket))
 
 //@ func (*RequestServer).serveLoop
-//@   property C07, C02
+//@   loop 1 ghost rxOrder
+//@   update before call (*conn).recvPacket#1: ghost.rxOrder = arg1
+//@   assert before send pktChan#1: arg1.orderid == ghost.rxOrder
+// (C18/C15: the page that holds a received packet is registered under the order id the packet is then given)
+//@   property C07, C02, C18, C15
 //@   loop 1 ghost rxOK, fwd
 //@   loop 1 invariant ghost.rxOK - ghost.fwd == old(ghost.rxOK) - old(ghost.fwd)
 //@   update after call makePacket#1: ghost.rxOK = ite(ret1 == nil || isErr(ret1, errUnknownExtendedPacket), ghost.rxOK + 1, ghost.rxOK)
@@ -1227,7 +1236,7 @@ package sftp
 //@   ensures result.readerAt == nil && result.writerAt == nil && result.writerAtReaderAt == nil && result.listerAt == nil && result.lsoffset == 0
 
 //@ func packetData
-//@   property C07, C01
+//@   property C07, C01, C18, C15
 //@   assert before call (*sshFxpReadPacket).getDataSlice#1: arg1 == alloc && arg2 == orderID && arg3 == maxTxPacket
 //@   ensures typeis(p, *sshFxpReadPacket) ==> len(data) == int(min(p.(*sshFxpReadPacket).Len, maxTxPacket))
 //@   requires (alloc == nil || alloc.used != nil) && maxTxPacket <= 0x7fffffff
@@ -1235,7 +1244,7 @@ package sftp
 //@   ensures typeis(p, *sshFxpReadPacket) ==> offset == int64(p.(*sshFxpReadPacket).Offset)
 
 //@ func fileget
-//@   property C07, C02, C01
+//@   property C07, C02, C01, C18, C15
 //@   assert before call packetData#1: arg0 == pkt && arg1 == alloc && arg2 == orderID && arg3 == maxTxPacket
 //@   assert before call (io.ReaderAt).ReadAt#1: arg1 == data && arg2 == offset
 //@   requires r != nil && pkt != nil && (alloc == nil || alloc.used != nil) && rsReqType(pkt) && maxTxPacket <= 0x7fffffff
@@ -1250,7 +1259,7 @@ package sftp
 //@   ensures typeis(result, *sshFxpStatusPacket)
 
 //@ func fileputget
-//@   property C07, C02, C01
+//@   property C07, C02, C01, C18, C15
 //@   assert before call (*sshFxpReadPacket).getDataSlice#1: arg1 == alloc && arg2 == orderID && arg3 == maxTxPacket
 //@   assert before call (WriterAtReaderAt).ReadAt#1: arg2 == int64(p.Offset)
 //@   assert before call (WriterAtReaderAt).WriteAt#1: arg1 == p.Data && arg2 == int64(p.Offset)
@@ -1293,7 +1302,9 @@ package sftp
 //@   ensures typeis(result, *sshFxpNamePacket)
 
 //@ func (*Request).call
-//@   property C07, C02, C10
+//@   assert before call fileget#1: arg3 == alloc && arg4 == orderID && arg5 == maxTxPacket
+//@   assert before call fileputget#1: arg3 == alloc && arg4 == orderID && arg5 == maxTxPacket
+//@   property C07, C02, C10, C18, C15
 //@   requires r != nil && pkt != nil && handlersOK(handlers) && attrsOK(pkt) && (alloc == nil || alloc.used != nil) && rsReqType(pkt) && maxTxPacket <= 0x7fffffff
 //@   requires MaxFilelist >= 1 && MaxFilelist <= 1000000
 //@   ensures result != nil && result.id() == pkt.id()
@@ -1317,7 +1328,8 @@ package sftp
 //@ ghost var curID uint32
 
 //@ func (*RequestServer).packetWorker
-//@   property C07, C02, C10, C11
+//@   assert before call (*Request).call#*: arg3 == rs.pktMgr.alloc && arg4 == orderID && arg5 == rs.maxTxPacket
+//@   property C07, C02, C10, C11, C18, C15
 //@   requires rsOK(rs) && ctx != nil
 //@   requires MaxFilelist >= 1 && MaxFilelist <= 1000000
 //@   loop 1 invariant rsOK(rs) && MaxFilelist >= 1 && MaxFilelist <= 1000000
@@ -1339,6 +1351,8 @@ package sftp
 // C02 (order) and C18 (release after send): the controller's queues
 
 //@ ghost var sentOrder uint32
+//@ ghost var relOrder uint32
+//@ ghost var rxOrder uint32
 
 //@ pred inQOK(s *packetManager) = forall(i, 0 <= i && i < len(s.incoming) ==> s.incoming[i] != nil)
 //@ pred outQOK(s *packetManager) = forall(i, 0 <= i && i < len(s.outgoing) ==> typeis(s.outgoing[i], orderedResponse))
@@ -1354,7 +1368,12 @@ package sftp
 //@   modifies a.available, mapof a.used, elems []byte
 
 //@ func (*packetManager).maybeSendPackets
-//@   property C02, C18
+//@   loop 1 ghost relOrder
+//@   update after call (*allocator).ReleasePages#1: ghost.relOrder = arg1
+//@   update before call (packetSender).sendPacket#1: ghost.relOrder = in.orderID() + 1
+//@   assert before call copy#1: s.alloc != nil ==> ghost.relOrder == ghost.sentOrder
+// (with the allocator on, the pages of every answered request are released -- after its response was written)
+//@   property C02, C18, C15
 //@   requires pmOK(s) && queuesOK(s)
 //@   loop 1 invariant pmOK(s)
 //@   loop 1 assume queuesOK(s)
@@ -1692,7 +1711,8 @@ package sftp
 //@   assert before send workCh#1: arg1.off == ghost.dOff && arg1.id == id && arg1.res == res
 
 //@ func (*sshFxpReadPacket).getDataSlice
-//@   property C07, C01, C18
+//@   assert before call (*allocator).GetPage#1: arg1 == orderID
+//@   property C07, C01, C18, C15
 //@   requires alloc == nil || alloc.used != nil
 //@   requires maxTxPacket <= 0x7fffffff
 //@   ensures len(result) == int(min(p.Len, maxTxPacket))
